@@ -237,8 +237,8 @@ def run_prim(c) -> CaseResult:
 
 CHECK = Check(
     id="C06",
-    parts=[Part("programs", run, strategy=cases, budget={"quick": 700, "thorough": 15000}),
-           Part("primitives", run_prim, strategy=prim_cases, budget={"quick": 500, "thorough": 8000})],
+    parts=[Part("programs", run, strategy=cases, budget={"quick": 2000, "thorough": 100000}),
+           Part("primitives", run_prim, strategy=prim_cases, budget={"quick": 1500, "thorough": 60000})],
     rule=("programs: recursive Hypothesis strategy - 1-8 sequential residual layers, each Residual(tau, branch) with branch a sequence of "
           "1-3 of {fixed matrix, tanh, sin, 2 tanh(x)^2, U.gelu, U.silu, U.linear, mean-pool over the second-last dim (branch output broadcast against the skip), nested layer} (nesting <= 3), each layer written either as "
           "split/f/add or residual_apply; tau log-uniform in [1e-3,1e3] + {0.01,0.5,1}; float64 inputs of rank 1-3. Oracle: the same tree "
